@@ -121,6 +121,24 @@ def guard_polarity(test, name="equivariant"):
     return 0
 
 
+def walk_pol(node, pol):
+    """ast.walk that carries the guard polarity through conditional expressions (`a if equivariant else b`)."""
+    yield node, pol
+    if isinstance(node, ast.IfExp):
+        g = guard_polarity(node.test)
+        exact = not isinstance(node.test, ast.BoolOp)
+        for x in walk_pol(node.test, pol):
+            yield x
+        for x in walk_pol(node.body, g if g else pol):
+            yield x
+        for x in walk_pol(node.orelse, -g if (g and exact) else pol):
+            yield x
+        return
+    for ch in ast.iter_child_nodes(node):
+        for x in walk_pol(ch, pol):
+            yield x
+
+
 def effect_rule(ctx):
     pm = ctx.pm
     hits = []
@@ -131,16 +149,37 @@ def effect_rule(ctx):
         if not in_model:
             continue
 
+        def terminates(stmts):
+            """every path through the block ends in return / raise (guard-clause style early exits)"""
+            if not stmts:
+                return False
+            last = stmts[-1]
+            if isinstance(last, (ast.Return, ast.Raise)):
+                return True
+            if isinstance(last, ast.If):
+                return terminates(last.body) and terminates(last.orelse)
+            return False
+
         def visit(stmts, ctxpol):
             nonlocal n_sites
             for st in stmts:
                 if isinstance(st, ast.If):
                     pol = guard_polarity(st.test)
                     visit(st.body, pol if pol else ctxpol)
-                    visit(st.orelse, -pol if pol else ctxpol)
+                    # `a and equivariant` says nothing about its else branch
+                    exact = not isinstance(st.test, ast.BoolOp)
+                    visit(st.orelse, -pol if (pol and exact) else ctxpol)
+                    if not exact:
+                        pol = 0
+                    # guard clause: `if equivariant: ...; return` makes the rest of the block the conventional branch
+                    if pol and ctxpol == 0:
+                        if terminates(st.body) and not terminates(st.orelse):
+                            ctxpol = -pol
+                        elif terminates(st.orelse) and not terminates(st.body):
+                            ctxpol = pol
                     continue
                 for sub in ([st] if not isinstance(st, (ast.For, ast.While, ast.With)) else []):
-                    for n in ast.walk(sub):
+                    for n, npol in walk_pol(sub, ctxpol):
                         if isinstance(n, ast.Call):
                             d = pm.resolve(MODELS_MOD, n.func, params) or ""
                             what = NONEQ_CALLS.get(d)
@@ -154,7 +193,7 @@ def effect_rule(ctx):
                                     what = "max pooling by signed value (use_norm=%s)" % ast.unparse(a2)
                             if what is not None:
                                 n_sites += 1
-                                if ctxpol != -1:
+                                if npol != -1:
                                     hits.append((q, n.lineno, "%s (%s) is reachable in the equivariant branch: not guarded by `not equivariant`" % (d, what)))
                 if isinstance(st, (ast.For, ast.While, ast.With)):
                     visit(st.body, ctxpol)
@@ -178,7 +217,7 @@ def run(ctx):
         pm.func(MODELS_MOD, q)
         ev.functions.add(MODELS_MOD + "." + q)
     hits, n_sites = effect_rule(ctx)
-    ev.instances("C07.EFFECT.conventional_sites", n_sites, floor=10)
+    ev.instances("C07.EFFECT.conventional_sites", n_sites, floor=4)  # one per conventional construct kind; the count above that is style
     for q, line, what in hits:
         ctx.add(Finding("C07", "C07.EFFECT", q, what, pm.path(MODELS_MOD), line, None, "conventional-in-equivariant"))
     th = ctx.thorough()
